@@ -701,12 +701,14 @@ class Unary(Expression):
 
     @contextmanager
     def calculate(self, dst, long, force=False):
-        with self.arg.calculate(dst, long, force) as (dst, arg_long):
-            # the operand is already extended to the requested width
-            if long is None:
-                long = arg_long
-            self.calculate_unary(dst, long)
-            yield dst, long
+        with self.ebpf.get_free_register(dst) as dst:
+            # work on a copy, the operand may be a register in use
+            with self.arg.calculate(dst, long, True) as (dst, arg_long):
+                # the operand is already extended to the requested width
+                if long is None:
+                    long = arg_long
+                self.calculate_unary(dst, long)
+                yield dst, long
 
     def contains(self, no):
         return self.arg.contains(no)
